@@ -43,8 +43,8 @@ Inductive devent :=
 
 Inductive c12case :=
 | Case (k_cfg : config) (k_steps : list (label * obs))
-  (* limit, "the limiter can never grant" (burst 0), the trace *)
-| DispCase (lim : Z) (lim_fails : bool) (evs : list devent)
+  (* limit, the limiter's bucket size (a limiter with rate Inf is given as 1), the trace *)
+| DispCase (lim : Z) (burst : Z) (evs : list devent)
   (* goroutine-level run of Run + dispatcher: the provider calls in order; they must be the calls of a run of
      the loop that receives exactly these sources *)
 | AsyncCase (lim : Z) (calls : list (list source)).
@@ -115,26 +115,26 @@ Fixpoint first_bad (c : config) (st : state) (n : N) (steps : list (label * obs)
 Definition dbind {A B} (o : option A) (f : A -> option B) : option B := match o with Some x => f x | None => None end.
 
 (* unobservable steps that bring the loop into the provider call *)
-Definition silent_to_call (lim : Z) (fails : bool) (d : dstate) : option dstate :=
-  if fails then None else
+Definition silent_to_call (lim burst : Z) (d : dstate) : option dstate :=
   match d_phase d with
-  | DSelect => if d_armed d then dbind (dstep lim d DTimer) (λ d1, dstep lim d1 DLimit) else None
-  | DLimiter => dstep lim d DLimit
+  | DSelect => if d_armed d then dbind (dstep_b lim burst d DTimer) (λ d1, dstep_b lim burst d1 DLimit) else None
+  | DLimiter => dstep_b lim burst d DLimit
   | _ => None
   end.
 
 (* unobservable steps that make run return *)
-Definition silent_to_stop (lim : Z) (fails : bool) (d : dstate) : option dstate :=
+(* ([dstep_b]: the limiter fails only after a cancellation or if one token exceeds its bucket) *)
+Definition silent_to_stop (lim burst : Z) (d : dstate) : option dstate :=
   match d_phase d with
-  | DSelect => if d_cancelled d then dstep lim d DStop
-               else if d_armed d && fails then dbind (dstep lim d DTimer) (λ d1, dstep lim d1 DLimitErr)
+  | DSelect => if d_cancelled d then dstep_b lim burst d DStop
+               else if d_armed d then dbind (dstep_b lim burst d DTimer) (λ d1, dstep_b lim burst d1 DLimitErr)
                else None
-  | DLimiter => if d_cancelled d || fails then dstep lim d DLimitErr else None
-  | DSending => if d_cancelled d then dbind (dstep lim d DAbandon) (λ d1, dstep lim d1 DStop) else None
+  | DLimiter => dstep_b lim burst d DLimitErr
+  | DSending => if d_cancelled d then dbind (dstep_b lim burst d DAbandon) (λ d1, dstep_b lim burst d1 DStop) else None
   | _ => None
   end.
 
-Definition devent_step (lim : Z) (fails : bool) (d : dstate) (e : devent) : option dstate :=
+Definition devent_step (lim burst : Z) (d : dstate) (e : devent) : option dstate :=
   match e with
   | ERecv s =>   (* after a cancellation doLookup may have given up its unsent answers unobserved *)
       match d_phase d with
@@ -142,14 +142,14 @@ Definition devent_step (lim : Z) (fails : bool) (d : dstate) (e : devent) : opti
       | _ => dstep lim d (DRecv s)
       end
   | ECall ips res err =>
-      dbind (silent_to_call lim fails d) (λ d1,
+      dbind (silent_to_call lim burst d) (λ d1,
         if list_eqb str_eqb ips (d_ips d1) then dstep lim d1 (DCall res err) else None)
   | EInfo i => match d_tosend d with
                | i' :: _ => if info_eqb i i' then dstep lim d DSend else None
                | [] => None
                end
   | ECancel => dstep lim d DCancel
-  | EStopped => silent_to_stop lim fails d
+  | EStopped => silent_to_stop lim burst d
   | EPanic => match d_phase d with DPanicked => Some d | _ => None end
   | EIdle => match d_phase d with
              | DSelect => if d_armed d || d_cancelled d then None else Some d
@@ -158,11 +158,11 @@ Definition devent_step (lim : Z) (fails : bool) (d : dstate) (e : devent) : opti
              end
   end.
 
-Fixpoint dtrace_bad (lim : Z) (fails : bool) (d : dstate) (n : N) (evs : list devent) : option (N * dstate) :=
+Fixpoint dtrace_bad (lim burst : Z) (d : dstate) (n : N) (evs : list devent) : option (N * dstate) :=
   match evs with
   | [] => None
-  | e :: r => match devent_step lim fails d e with
-              | Some d' => dtrace_bad lim fails d' (N.succ n) r
+  | e :: r => match devent_step lim burst d e with
+              | Some d' => dtrace_bad lim burst d' (N.succ n) r
               | None => Some (n, d)
               end
   end.
@@ -177,7 +177,7 @@ Fixpoint dcalls_bad (lim : Z) (d : dstate) (n : N) (calls : list (list source)) 
   match calls with
   | [] => None
   | ips :: r =>
-      match dbind (dfeed lim d ips) (λ d1, dbind (silent_to_call lim false d1) (λ d2,
+      match dbind (dfeed lim d ips) (λ d1, dbind (silent_to_call lim 1 d1) (λ d2,
               dbind (dstep lim d2 (DCall [] false)) (λ d3, ddrain lim d3 (length ips)))) with
       | Some d' => dcalls_bad lim d' (N.succ n) r
       | None => Some (n, d)
@@ -187,7 +187,7 @@ Fixpoint dcalls_bad (lim : Z) (d : dstate) (n : N) (calls : list (list source)) 
 Definition check_case (k : c12case) : bool :=
   match k with
   | Case cfg steps => match first_bad cfg init 0%N steps with None => true | Some _ => false end
-  | DispCase lim fails evs => match dtrace_bad lim fails (d_init lim) 0%N evs with None => true | Some _ => false end
+  | DispCase lim burst evs => match dtrace_bad lim burst (d_init lim) 0%N evs with None => true | Some _ => false end
   | AsyncCase lim calls => match dcalls_bad lim (d_init lim) 0%N calls with None => true | Some _ => false end
   end.
 
@@ -225,6 +225,6 @@ Definition explain_lock (cfg : config) (steps : list (label * obs)) : option vie
 Definition explain_case (k : c12case) : option view * option dview :=
   match k with
   | Case cfg steps => (explain_lock cfg steps, None)
-  | DispCase lim fails evs => (None, mk_dview <$> dtrace_bad lim fails (d_init lim) 0%N evs)
+  | DispCase lim burst evs => (None, mk_dview <$> dtrace_bad lim burst (d_init lim) 0%N evs)
   | AsyncCase lim calls => (None, mk_dview <$> dcalls_bad lim (d_init lim) 0%N calls)
   end.
